@@ -1,6 +1,6 @@
 (* Props/C19.v — matrix duplicate and exclude checks are exact and
    order-insensitive.  Only statements; every proof is [exact <lemma>]. *)
-From AL Require Import Matrix.RawYaml Matrix.MatrixRule Matrix.EqualsProofs Matrix.MatrixProofs.
+From AL Require Import Matrix.RawYaml Matrix.MatrixRule Matrix.EqualsProofs Matrix.MatrixProofs Matrix.ExcludeProofs Matrix.PermProofs.
 
 (* Equals decides structural equality (mappings as finite maps). *)
 Theorem C19_equals_exact : forall a, ywf a -> forall b, ywf b -> (equals a b = true <-> yeq a b).
@@ -50,3 +50,38 @@ Theorem C19_exclude_entry_functional : forall ign rows k a d1 d2,
   assign_verdict ign rows k a d1 -> assign_verdict ign rows k a d2 -> d1 = d2.
 Proof. exact assign_verdict_functional. Qed.
 Print Assumptions C19_exclude_entry_functional.
+
+(* the candidates an exclude entry is matched against are exactly the literal
+   row values plus the values assigned by include entries (up to structural
+   equality); keys whose row is an expression are ignored; a key has
+   candidates iff a row or an include entry defines it *)
+Theorem C19_candidates_spec : forall m, matrix_wf m ->
+  let (rows, ign) := candidates m in
+  (forall k, In k ign <-> exists r, lookup k (m_rows m) = Some r /\ r_expr r = true) /\
+  (forall k, ~ In k ign ->
+     (lookup k rows = None <->
+      (match lookup k (m_rows m) with Some _ => False | None => True end) /\ assigned k (include_assigns m) = []) /\
+     (forall v, In v (row_of rows k) -> In v (source_values m k)) /\
+     (forall u, In u (source_values m k) -> exists v, In v (row_of rows k) /\ yeq v u)).
+Proof. exact candidates_spec. Qed.
+Print Assumptions C19_candidates_spec.
+
+(* an exclude entry is accepted iff some source value of its key contains it *)
+Theorem C19_exclude_verdict_sources : forall m, matrix_wf m ->
+  let (rows, ign) := candidates m in
+  forall k a, ~ In k ign ->
+    (existsb (fun v => subset v a) (row_of rows k) = true <->
+     exists u, In u (source_values m k) /\ ysubset u a).
+Proof. exact exclude_verdict_sources. Qed.
+Print Assumptions C19_exclude_verdict_sources.
+
+(* the order in which the rows map is visited does not matter *)
+Theorem C19_rows_order_irrelevant : forall m rs', Permutation (m_rows m) rs' -> NoDupKeys (m_rows m) ->
+  Permutation (check_matrix m) (check_matrix (with_rows m rs')).
+Proof. exact check_matrix_rows_perm. Qed.
+Print Assumptions C19_rows_order_irrelevant.
+
+Theorem C19_exclude_rows_order_irrelevant : forall m rs', Permutation (m_rows m) rs' -> NoDupKeys (m_rows m) ->
+  check_exclude (with_rows m rs') = check_exclude m.
+Proof. exact check_exclude_rows_perm. Qed.
+Print Assumptions C19_exclude_rows_order_irrelevant.
